@@ -36,7 +36,7 @@ use crate::verif::scen::{self, Env};
 use crate::verif::world::{self, Chain};
 
 const TIMEOUT: u64 = 60_000;
-const TICKS: [u64; 5] = [0, 1, 8_000, TIMEOUT - 8_000, TIMEOUT + 1];
+const TICKS: [u64; 6] = [0, 1, 8_000, TIMEOUT - 8_000, TIMEOUT - 7_999, TIMEOUT + 1];
 
 #[derive(Clone, Debug, PartialEq, Eq)]
 pub(crate) enum Ev {
@@ -158,6 +158,9 @@ pub(crate) struct FsmModel<'a> {
     cfg: ClientCfg,
     n_peers: usize,
     start_proven: bool,
+    /// (with start_proven) peer 1 has announced a new last state and the proof request for it is
+    /// outstanding (its answer is dropped): the run starts in RequestNewLastStateProof
+    start_requested: bool,
     fetch_hash: packed::Byte32,
     track: RefCell<Track>,
     /// distinct observed (variant before -> variant after) steps, for the coverage report
@@ -227,6 +230,15 @@ impl<'a> Model for FsmModel<'a> {
                 sim.connect(p);
             }
             sim.converge(40);
+            if self.start_requested {
+                let h = sim.world.peer(1).height + 5;
+                sim.set_view(1, 0, h, true);
+                sim.deliver_all_fifo(1);
+                sim.cm().tick_lc(0);
+                sim.pump_out();
+                // the answer never arrives
+                sim.queue.clear();
+            }
             let mut t = self.track.borrow_mut();
             t.sent_seen = sim.sent_log.len();
             t.disc_seen = sim.c().out.disconnects().len();
@@ -582,17 +594,18 @@ impl<'a> Model for FsmModel<'a> {
 
 pub(crate) fn run(opts: &Opts, report: &mut Report) {
     let thorough = opts.thorough();
-    // (peers, start with proven peers, max depth)
-    let configs: Vec<(usize, bool, usize)> = if thorough {
-        vec![(1, false, 7), (1, true, 6), (2, false, 5), (2, true, 5)]
+    // (peers, start: 0 fresh / 1 proven / 2 proven with an outstanding new proof request, max depth)
+    let configs: Vec<(usize, u8, usize)> = if thorough {
+        vec![(1, 0, 7), (1, 1, 6), (1, 2, 6), (2, 0, 5), (2, 1, 5), (2, 2, 4)]
     } else {
-        vec![(1, false, 4), (1, true, 4), (2, true, 2)]
+        vec![(1, 0, 4), (1, 1, 4), (1, 2, 3), (2, 1, 2)]
     };
     const SHARDS: usize = 16;
     let n_items = configs.len() * SHARDS;
     let worker = crate::verif::props::shard::run("C11", opts, report, n_items, 16, |item, report| {
         let env = Env::dummy();
-        let (n_peers, start_proven, max_depth) = configs[item / SHARDS];
+        let (n_peers, start, max_depth) = configs[item / SHARDS];
+        let (start_proven, start_requested) = (start >= 1, start == 2);
         let shard = item % SHARDS;
         let mut main = Chain::new(std::sync::Arc::clone(&env.consensus), scen::wavy_plan(6));
         scen::extend_chain(&mut main, &env.scripts, 40, &[]);
@@ -603,6 +616,7 @@ pub(crate) fn run(opts: &Opts, report: &mut Report) {
             cfg: ClientCfg { last_n: 3, max_outbound: 2, cp_interval: 4, ..Default::default() },
             n_peers,
             start_proven,
+            start_requested,
             fetch_hash,
             track: RefCell::new(Track::default()),
             edges_seen: RefCell::new(BTreeSet::new()),
@@ -617,7 +631,7 @@ pub(crate) fn run(opts: &Opts, report: &mut Report) {
         } else {
             vec![]
         };
-        let name = format!("{}peer/{}", n_peers, if start_proven { "proven" } else { "fresh" });
+        let name = format!("{}peer/{}", n_peers, ["fresh", "proven", "requested"][start as usize]);
         let mut transitions_seen: BTreeSet<String> = BTreeSet::new();
         let stats = {
             let mut rep = |hist: &[Ev], class: String, detail: String| {
@@ -655,6 +669,6 @@ pub(crate) fn run(opts: &Opts, report: &mut Report) {
     report.set("distinct_nontrivial", json!(report.get("states")));
     report.set("traces_validated_against_impl", json!(report.get("replays")));
     report.set("rule", json!("state = event list replayed on the real client (store + peers with exact ages + pending messages + world position + event budgets, fingerprinted); transitions = (state, enabled event) pairs executed; after every event the observed step of every peer is checked against the reference transition relation"));
-    report.set("bounds", json!({"depth": if thorough { "7 / 6 (1 peer fresh / proven), 5 (2 peers)" } else { "4 (1 peer, fresh and proven start), 2 (2 peers proven)" }, "budgets": "connect <= 2 per peer, disconnect <= 1, unsolicited last states <= 2, refresh ticks <= 3, duplicate <= 1, stale proof <= 1, fetch tick <= 1", "tick_deltas_ms": TICKS}));
+    report.set("bounds", json!({"depth": if thorough { "7 / 6 / 6 (1 peer: fresh / proven / proof request outstanding), 5 / 5 / 4 (2 peers)" } else { "4 / 4 / 3 (1 peer: fresh / proven / proof request outstanding), 2 (2 peers proven)" }, "budgets": "connect <= 2 per peer, disconnect <= 1, unsolicited last states <= 2, refresh ticks <= 3, duplicate <= 1, stale proof <= 1, fetch tick <= 1", "tick_deltas_ms": TICKS}));
     report.assume("the peer's messages are honest in content (C01 covers forged content); what varies is their order, timing, duplication and staleness");
 }
